@@ -68,9 +68,9 @@ const c13ReloadWait = 40 * time.Second
 type c13Outcome struct {
 	Retry      string // non-empty: the environment got in the way (port stolen, ...): build the case again
 	Violations []string
-	Affected   int // components whose parameters differ between start(old) and start(new)
-	Kept       int // components that had to be kept
-	Recreated  int // components present before and after with a different identity
+	Affected   int      // components whose parameters differ between start(old) and start(new)
+	Kept       int      // components that had to be kept
+	Recreated  int      // components present before and after with a different identity
 	Excluded   []string // known-finding keys that suppressed an assertion
 }
 
@@ -161,7 +161,7 @@ func c13RunOnce(t c13TB, ch *c13Change, mode string) c13Outcome {
 		}
 	}()
 	sOld, instOld := c13Live(c.Core)
-	c13Complete(sOld, instOld) // no reload has happened yet: nothing writes the late fields
+	c13Complete(sOld, instOld)       // no reload has happened yet: nothing writes the late fields
 	defer runtime.KeepAlive(instOld) // the old instances stay reachable: their addresses cannot be reused by recreated components
 
 	c13Apply(t, c, ch, mode)
